@@ -622,3 +622,71 @@ Section Dags.
     destruct (String.eqb_spec (d_init d1) (d_init d2)); [contradiction|discriminate].
   Qed.
 End Dags.
+
+(* ------------------------------------------------------------------ the fuel is never exhausted *)
+Lemma disamb_total pred : forall order g m, disamb pred g order m <> None.
+Proof.
+  induction order as [|c r IH]; intros g m; cbn [disamb]; [discriminate|].
+  destruct (pred c); [|apply IH].
+  pose proof (ung_call_total g c) as T. destruct (ung_call g c) as [[n g']|]; [apply IH|contradiction].
+Qed.
+
+Lemma remap_deps_no_fuel idm : forall deps, remap_deps idm deps <> FOutOfFuel /\
+                                            forall w, remap_deps idm deps <> FValueError w.
+Proof.
+  induction deps as [|d r [IH1 IH2]]; cbn [remap_deps]; [split; [discriminate|intros w; discriminate]|].
+  destruct (id_lookup d idm); [|split; [discriminate|intros w; discriminate]].
+  destruct (remap_deps idm r) as [r'|w0|k|] eqn:E.
+  - split; [discriminate|intros w; discriminate].
+  - exfalso. now apply (IH2 w0).
+  - split; [discriminate|intros w; discriminate].
+  - exfalso. now apply IH1.
+Qed.
+
+Lemma relabel_no_fuel idm : forall b news, relabel idm news b <> FOutOfFuel /\
+                                           forall w, relabel idm news b <> FValueError w.
+Proof.
+  induction b as [|st b IH]; intros news.
+  - destruct news as [|[k n] news]; cbn; (split; [discriminate|intros w; discriminate]).
+  - destruct news as [|[k n] news]; [cbn; split; [discriminate|intros w; discriminate]|].
+    cbn [relabel].
+    destruct (remap_deps_no_fuel idm (fdeps st)) as [D1 D2].
+    destruct (remap_deps idm (fdeps st)) as [ds|w0|k0|].
+    + destruct (IH news) as [I1 I2]. destruct (relabel idm news b) as [r'|w1|k1|].
+      * split; [discriminate|intros w; discriminate].
+      * exfalso. now apply (I2 w1).
+      * split; [discriminate|intros w; discriminate].
+      * exfalso. now apply I1.
+    + exfalso. now apply (D2 w0).
+    + split; [discriminate|intros w; discriminate].
+    + exfalso. now apply D1.
+Qed.
+
+Lemma fuse_streams_no_fuel a b : fuse_streams a b <> FOutOfFuel.
+Proof.
+  unfold fuse_streams. pose proof (fresh_ids_total b (ung_init (map fid a))) as T.
+  destruct (fresh_ids _ b) as [news|]; [|contradiction].
+  destruct (relabel_no_fuel news b news) as [R1 _].
+  destruct (relabel news news b); try discriminate. exfalso. now apply R1.
+Qed.
+
+Theorem fuse_two_dags_no_fuel lf bf is_state th pr gd lv p order clashes d1 d2 :
+  fuse_two_dags lf bf is_state th pr gd lv p order clashes d1 d2 <> FOutOfFuel.
+Proof.
+  assert (S : forall pred clash a b, fuse_stmts lf bf gd lv pred clash a b <> FOutOfFuel).
+  { intros pred clash a b. unfold fuse_stmts, subst_of.
+    pose proof (disamb_total pred clash (ung_init (idents lf bf a ++ idents lf bf b)) []) as T.
+    destruct (disamb _ _ _ _); [|contradiction].
+    destruct (existsb _ b); [discriminate|apply fuse_streams_no_fuel]. }
+  assert (P : forall n q clash p1 p2, fuse_two_phases lf bf is_state pr gd lv n q clash p1 p2 <> FOutOfFuel).
+  { intros n q clash [pa|] [pb|]; cbn [fuse_two_phases]; try discriminate.
+    destruct (negb _); [discriminate|]. specialize (S (eff_pred is_state pr q) clash (ph_stmts pa) (ph_stmts pb)).
+    destruct (fuse_stmts _ _ _ _ _ _ _ _); try discriminate. contradiction. }
+  assert (L : forall names acc, fuse_phases lf bf is_state th pr gd lv p clashes d1 d2 names acc <> FOutOfFuel).
+  { induction names as [|n r IH]; intros acc; cbn [fuse_phases]; [discriminate|].
+    specialize (P n (if th then p else None) (oget n clashes) (pget n (d_phases d1)) (pget n (d_phases d2))).
+    destruct (fuse_two_phases _ _ _ _ _ _ _ _ _ _ _); try discriminate; [apply IH|contradiction]. }
+  unfold fuse_two_dags. specialize (L order []).
+  destruct (fuse_phases _ _ _ _ _ _ _ _ _ _ _ _ _); try discriminate; [|contradiction].
+  destruct (negb _); discriminate.
+Qed.
